@@ -319,25 +319,122 @@ package parsley
 //@ -- ------------------------------------------------------------ Parse / Evaluate
 //@ props C04,C06
 
+//@ -- the (monotone) set of nodes that are results of a successful transformation
+//@ ghostfun GhostIsTr(n Node) bool
+//@ pure func TrKept() bool = GhostTrCalls >= old(GhostTrCalls) && forall m Node :: old(GhostIsTr(m)) ==> GhostIsTr(m)
+//@ -- the number of transformations started so far
+//@ ghost GhostTrCalls int
+//@ -- a successful transformation leaves no child slot empty that was filled before
+//@ pure func SlotsKept() bool = forall s []Node, k int :: 0 <= k && k < len(s) && old(s[k] != nil) ==> s[k] != nil
+
 //@ interface parsley.Transformable.Transform(n Transformable, userCtx interface{}) (r Node, err Error)
 //@   requires n != nil
 //@   ensures  [result;C04] (r == nil) != (err == nil)
 //@   ensures  r != nil ==> NodeOK(r)
 //@   ensures  err != nil ==> err.Pos() >= 0
-//@   assigns  fields[Node]()
-
-//@ func Transform(userCtx interface{}, node Node) (r Node, err Error)
-//@   requires node != nil && NodeOK(node)
+//@   ensures  [mark-kept] TrKept()
+//@   ensures  [slots-kept] err == nil ==> SlotsKept()
+//@   assigns  fields[Node]("children"), elems[[]Node](), GhostIsTr, GhostTrCalls
+//@ interface parsley.NodeTransformer.TransformNode(t NodeTransformer, userCtx interface{}, node Node) (r Node, err Error)
+//@   requires t != nil && node != nil
 //@   ensures  [result;C04] (r == nil) != (err == nil)
 //@   ensures  r != nil ==> NodeOK(r)
 //@   ensures  err != nil ==> err.Pos() >= 0
-//@   assigns  fields[Node]()
+//@   ensures  [mark-kept] TrKept()
+//@   ensures  [slots-kept] err == nil ==> SlotsKept()
+//@   assigns  fields[Node]("children"), elems[[]Node](), GhostIsTr, GhostTrCalls
 
-//@ func StaticCheck(userCtx interface{}, node Node) (err Error)
-//@   requires node != nil && NodeOK(node)
+//@ -- Transform: a transformable node transforms itself, any other node is its own transformation
+//@ func Transform(userCtx interface{}, node Node) (r Node, err Error)
+//@   props C13,C04
+//@   logs parsley.Transformable.Transform
+//@   requires node != nil
+//@   ensures  [result;C04] (r == nil) != (err == nil)
+//@   ensures  r != nil && old(NodeOK(node)) ==> NodeOK(r)
+//@   ensures  err != nil ==> err.Pos() >= 0
+//@   ensures  [delegates;C13] typeis[Transformable](node) ==> ncalls() == 1 && callarg[interface{}](1, 1) == userCtx && same(r, callres[Node](1, 0)) && same(err, callres[Error](1, 1))
+//@   ensures  [identity;C13] !typeis[Transformable](node) ==> ncalls() == 0 && same(r, node) && err == nil
+//@   ensures  [mark;C13] err == nil ==> GhostIsTr(r)
+//@   ensures  [mark-kept] TrKept()
+//@   ensures  [slots-kept] err == nil ==> SlotsKept()
+//@   ensures  [counted;C13] GhostTrCalls > old(GhostTrCalls)
+//@   assigns  fields[Node]("children"), elems[[]Node](), GhostIsTr, GhostTrCalls
+//@   ghost_entry GhostTrCalls = GhostTrCalls + 1
+//@   ghost_return when err == nil :: GhostIsTr(r) = true
+
+//@ -- ------------------------------------------------------------ tree passes (C13)
+//@ -- the visit trace: the nodes the callback of a walk was invoked on, in order, with its answers; and the (monotone)
+//@ -- set of nodes a Walk has been run on
+//@ ghost GhostVisitLen int
+//@ ghostfun GhostVisit(k int) Node
+//@ ghostfun GhostStop(k int) bool
+//@ ghostfun GhostWalked(n Node) bool
+
+//@ -- every entry added since `from` answered "go on", except the last, which answered `stop`
+//@ pure func TraceKept(from int) bool = forall k int :: k < from ==> GhostVisit(k) == old(GhostVisit(k)) && GhostStop(k) == old(GhostStop(k))
+//@ pure func StopsAtLast(from int, stop bool) bool = (stop ==> GhostVisitLen > from) && forall k int :: from <= k && k < GhostVisitLen ==> GhostStop(k) == (stop && k == GhostVisitLen-1)
+//@ pure func WalkedKept() bool = forall m Node :: old(GhostWalked(m)) ==> GhostWalked(m)
+
+//@ -- a visitor: its invocation IS the trace event (the [ghost-...] clauses define the trace); it may write node
+//@ -- fields (StaticCheck records schemas) and its own captured variables
+//@ functype parsley.visitor(self func(Node) bool, n Node) (stop bool)
+//@   requires cloinv(self)
+//@   ensures  [ghost-trace] GhostVisitLen == old(GhostVisitLen) + 1 && GhostVisit(old(GhostVisitLen)) == n && GhostStop(old(GhostVisitLen)) == stop
+//@   ensures  [ghost-frame] TraceKept(old(GhostVisitLen)) && forall m Node :: GhostWalked(m) == old(GhostWalked(m))
+//@   ensures  [keeps] cloinv(self)
+//@   assigns  captures(self), fields[Node](), GhostVisitLen, GhostVisit, GhostStop
+
+//@ interface parsley.Walkable.Walk(w Walkable, f func(Node) bool) (stop bool)
+//@   requires w != nil && f != nil && cloinv(f)
+//@   ensures  GhostVisitLen >= old(GhostVisitLen) && TraceKept(old(GhostVisitLen)) && StopsAtLast(old(GhostVisitLen), stop) && WalkedKept() && cloinv(f)
+//@   assigns  captures(f), fields[Node](), GhostVisitLen, GhostVisit, GhostStop, GhostWalked
+
+//@ -- Walk: the Walkable delegate or the children first (in order), then the node itself; it stops at the first
+//@ -- visit that answers true (one level of the post-order: the recursion carries it through every tree shape)
+//@ func Walk(node Node, f func(n Node) bool) (stop bool)
+//@   props C13
+//@   requires f != nil && cloinv(f)
+//@   ensures  [progress;C13] GhostVisitLen > old(GhostVisitLen) && TraceKept(old(GhostVisitLen)) && cloinv(f)
+//@   ensures  [stop-immediately;C13] StopsAtLast(old(GhostVisitLen), stop)
+//@   ensures  [self-last;C13] !stop ==> GhostVisit(GhostVisitLen-1) == node
+//@   ensures  [walked;C13] GhostWalked(node) && WalkedKept()
+//@   ensures  [children-walked;C13] !stop && node != nil && !typeis[Walkable](node) && typeis[NonTerminalNode](node) ==> forall i int :: 0 <= i && i < len(old(node.(NonTerminalNode).Children())) ==> GhostWalked(old(node.(NonTerminalNode).Children())[i])
+//@   assigns  captures(f), fields[Node](), GhostVisitLen, GhostVisit, GhostStop, GhostWalked
+//@   ghost_return GhostWalked(node) = true
+//@ loop 1 (i rangeindex, kids []Node)
+//@   invariant 0 <= i && i <= len(kids) && cloinv(f)
+//@   invariant GhostVisitLen >= old(GhostVisitLen) && TraceKept(old(GhostVisitLen)) && StopsAtLast(old(GhostVisitLen), false) && WalkedKept()
+//@   invariant [children-walked] forall j int :: 0 <= j && j < i ==> GhostWalked(kids[j])
+//@ callee f(n Node) (stop bool)
+//@   include parsley.visitor
+
+//@ interface parsley.StaticChecker.StaticCheck(c StaticChecker, userCtx interface{}, node NonTerminalNode) (schema interface{}, err Error)
+//@   requires c != nil && node != nil
 //@   ensures  err != nil ==> err.Pos() >= 0
 //@   assigns  fields[Node]()
-//@   flag trusted
+//@ interface parsley.StaticCheckable.StaticCheck(n StaticCheckable, userCtx interface{}) (err Error)
+//@   requires n != nil
+//@   ensures  err != nil ==> err.Pos() >= 0
+//@   assigns  fields[Node]()
+
+//@ -- the visitor of StaticCheck: checks the node if it is checkable, and stops the walk at the first error
+//@ closure StaticCheck$1(n Node) (stop bool)
+//@   captures (staticCheckErr Error, userCtx interface{})
+//@   logs parsley.StaticCheckable.StaticCheck
+//@   ensures  [checks;C13] n != nil && typeis[StaticCheckable](n) ==> ncalls() == 1 && callarg[interface{}](1, 1) == userCtx
+//@   ensures  [not-checkable;C13] n == nil || !typeis[StaticCheckable](n) ==> ncalls() == 0 && !stop
+//@   ensures  [abort;C13] ncalls() == 1 ==> stop == (callres[Error](1, 0) != nil)
+//@   ensures  [first-error;C13] stop ==> same(staticCheckErr, callres[Error](1, 0))
+//@   ensures  [kept] !stop ==> same(staticCheckErr, old(staticCheckErr))
+//@   ensures  [inv] staticCheckErr == nil || staticCheckErr.Pos() >= 0
+//@   assigns  staticCheckErr, fields[Node]()
+
+//@ -- StaticCheck: one walk with that visitor; the error of the visit that stopped the walk is returned
+//@ func StaticCheck(userCtx interface{}, node Node) (err Error)
+//@   props C13
+//@   ensures  err != nil ==> err.Pos() >= 0
+//@   ensures  [one-walk;C13] GhostWalked(node) && GhostVisitLen > old(GhostVisitLen) && TraceKept(old(GhostVisitLen))
+//@   assigns  fields[Node](), GhostVisitLen, GhostVisit, GhostStop, GhostWalked
 
 //@ -- Parse: exactly one of a node or an error, for every root parser that satisfies the Parser contract
 //@ func Parse(ctx *Context, p Parser) (n Node, err error)
@@ -346,7 +443,7 @@ package parsley
 //@   requires GhostFloorPos < ctx.reader.Pos(0)
 //@   ensures  [one-of;C04] (n == nil) != (err == nil)
 //@   ensures  [valid] n != nil ==> NodeOK(n)
-//@   assigns  ctx.err, ctx.callCount, fields[Node](), fields[File](), maps[ResultCache](), maps[map[Pos]*Result](), maps[map[string]*regexp.Regexp](), GhostCurtailed, GhostMaxFail, GhostCalls, GhostFloorPos, GhostFloorLrc, GhostLo, GhostHi
+//@   assigns  ctx.err, ctx.callCount, fields[Node](), fields[File](), elems[[]Node](), maps[ResultCache](), maps[map[Pos]*Result](), maps[map[string]*regexp.Regexp](), GhostCurtailed, GhostMaxFail, GhostCalls, GhostFloorPos, GhostFloorLrc, GhostLo, GhostHi
 
 //@ globalinv [no-value] ErrNoValue != nil && !typeis[Error](ErrNoValue)
 //@ func init()
@@ -382,4 +479,4 @@ package parsley
 //@   requires ctx.reader.Remaining(ctx.reader.Pos(0)) >= 0
 //@   requires GhostFloorPos < ctx.reader.Pos(0)
 //@   ensures  [value-or-error;C04] v == nil || err == nil
-//@   assigns  ctx.err, ctx.callCount, fields[Node](), fields[File](), maps[ResultCache](), maps[map[Pos]*Result](), maps[map[string]*regexp.Regexp](), GhostCurtailed, GhostMaxFail, GhostCalls, GhostFloorPos, GhostFloorLrc, GhostLo, GhostHi
+//@   assigns  ctx.err, ctx.callCount, fields[Node](), fields[File](), elems[[]Node](), maps[ResultCache](), maps[map[Pos]*Result](), maps[map[string]*regexp.Regexp](), GhostCurtailed, GhostMaxFail, GhostCalls, GhostFloorPos, GhostFloorLrc, GhostLo, GhostHi
